@@ -30,8 +30,9 @@ ObsMatch == \/ ObsT' = Ev.post
 \* traces recorded with coef = true: the coefficient vectors of every matched state are printed, and the harness compares the
 \* totals the core reported at that event with them (volume, mass of every nuclide, parameter totals are floats)
 WantCoef == "coef" \in DOMAIN Traces[tid] /\ Traces[tid].coef
-CoefOut  == WantCoef => PrintT(ToJson([coef |-> Traces[tid].id, at |-> l, br |-> act'.br, vol |-> Obs'.vol, par |-> Obs'.par,
-                                       full |-> Obs'.full, mult |-> ObsT'.mult, volOk |-> ObsT'.volOk, parOk |-> ObsT'.parOk, totOk |-> ObsT'.totOk]))
+CoefOut  == WantCoef => LET ob == Obs' IN
+            PrintT(ToJson([coef |-> Traces[tid].id, at |-> l, br |-> act'.br, vol |-> ob.vol, par |-> ob.par, full |-> ob.full,
+                           mult |-> ob.d.mult, volOk |-> ob.d.volOk, parOk |-> ob.d.parOk, totOk |-> ob.d.totOk, disp |-> ob.disp]))
 TNext == /\ l <= Len(Traces[tid].ev) /\ l' = l + 1 /\ tid' = tid
          /\ Step
          /\ ObsMatch
